@@ -2209,7 +2209,11 @@ def given_weights_unit(relpath, qualname, P, wt, kind):
             bnds.append(z3.ForAll([u, v, i], z3.Implies(edge_pred(u, v, i), num(GAMMA(u, v, i), False))))
         spec = z3.And(z3.ForAll([u, v], z3.Implies(z3.And(g.EDGE(u, v), z3.Not(IGN(u, v))), edge_row(g, u, v))), USED(k) <= z3.ToReal(ok_))
         full = z3.And(H0, *bnds, spec)
-        c.prove("post:SOUND-on-every-non-ignored-edge-the-rows-speak-about-sum_i given_weight(i)*x(u,v,i);-at-most-original_k-layers-leave-the-source", z3.Implies(H, full), prop=P)
+        # proved conjunct by conjunct (one large quantified conjunction made the solver's verdict depend on its seed)
+        c.prove("post:SOUND-on-every-non-ignored-edge-the-rows-speak-about-sum_i given_weight(i)*x(u,v,i)",
+                z3.Implies(H, z3.ForAll([u, v], z3.Implies(z3.And(g.EDGE(u, v), z3.Not(IGN(u, v))), edge_row(g, u, v)))), prop=P)
+        c.prove("post:SOUND-at-most-original_k-layers-leave-the-source", z3.Implies(H, USED(k) <= z3.ToReal(ok_)), prop=P)
+        c.prove("post:SOUND-earlier-rows-kept-and-new-columns-within-their-bounds", z3.Implies(H, z3.And(H0, *bnds)), prop=P)
         c.prove("post:COMPLETE-nothing-else-is-excluded", z3.Implies(full, H), prop=None, kind="complete")
         objs = getattr(sol, "objectives", [])
         if kind == "fd":
